@@ -4,6 +4,7 @@ CONSTANTS
   Devs = {"dA", "dB"}
   Reuse = FALSE
   NMods = 1
+  Policy = "none"
   Forge64 = {"resign_stranger"}
   Forge22 = {"to1d_resign_stranger"}
   Forge32 = {"resign_stranger"}
